@@ -22,6 +22,7 @@ func CorpusC02() []*Input {
 		{Steps: []Step{{Backs: seqBack(6, 1, "", false, "10.0.0.1", "10.0.0.1", "10.0.0.2")}, {Backs: seqBack(6, 1, "", false, "10.0.0.1", "10.0.0.1", "10.0.0.3")}}},
 	}
 	in = append(in, corpusWeights()...)
+	in = append(in, corpusLinked()...)
 	return append(in, corpusCerts()...)
 }
 
@@ -65,10 +66,39 @@ func corpusCerts() []*Input {
 	}
 }
 
+// linked builds the history of seeded/C11-shrink-before-syncconfig: one host routing to one backend
+// (min-free 2, increment 4), loaded, re-notified twice without change (remove + re-acquire of host
+// and backend), then a third endpoint that fits in the empty slots.
+func linked(h HostSpec, strict bool) *Input {
+	mk := func(ips ...string) []BackSpec {
+		b := seqBack(2, 4, "", false, ips...)
+		b[0].ModeTCP = h.Passthrough
+		return b
+	}
+	h.Backend = "d_app_8080"
+	return &Input{StrictHost: strict, Steps: []Step{
+		{Backs: mk("10.0.0.1", "10.0.0.2"), Hosts: []HostSpec{h}, DefBack: "d_app_8080"},
+		{Backs: mk("10.0.0.1", "10.0.0.2"), Hosts: []HostSpec{h}},
+		{Hosts: []HostSpec{h}},
+		{Backs: mk("10.0.0.1", "10.0.0.2", "10.0.0.3")},
+		{Backs: mk("10.0.0.1", "10.0.0.3")},
+	}}
+}
+
+func corpusLinked() []*Input {
+	return []*Input{
+		linked(HostSpec{Name: "secure.local", Crt: "sec", Content: "sec-v1", AuthTLS: "ca-v1"}, false),
+		linked(HostSpec{Name: "plain.local"}, false),
+		linked(HostSpec{Name: "pass.local", Passthrough: true}, false),
+		linked(HostSpec{Name: "app.local", Path: "/app", Crt: "app", Content: "app-v1"}, true),
+		linked(HostSpec{Name: "both.local", Path: "/app", AuthTLS: "ca-v1"}, true),
+	}
+}
+
 // CorpusC11 holds fixed histories for C11.
 func CorpusC11() []*Input {
-	return []*Input{
+	return append(corpusLinked(), []*Input{
 		{Steps: []Step{{Backs: seqBack(2, 4, "", false, "10.0.0.1", "10.0.0.2")}, {Backs: seqBack(2, 4, "", false, "10.0.0.1", "10.0.0.2")},
 			{Backs: seqBack(2, 4, "", false, "10.0.0.1", "10.0.0.3", "10.0.0.4")}, {Backs: seqBack(2, 4, "", false, "10.0.0.4")}}},
-	}
+	}...)
 }
